@@ -118,7 +118,8 @@ def build(rng, tier):
         for j in range(3):
             inp = gen.nodup_input(rng.fork(f"{pid}h{j}"), p, max_rows=6)
             inst = f"{pid}_{j}"
-            ops = [f"eng new {inst} {pid}"] + engcheck.load_ops(inst, inp) + [f"eng run {inst}", f"eng dump {inst}", f"eng run {inst}", f"eng dump {inst}"]
+            rn = "runp" if j == 1 else "run"      # one history in three: the Lean side is the physical-index engine model (aggregation through the hash indices: Props/C04Phys.lean, C13PhysAgg.lean)
+            ops = [f"eng new {inst} {pid}"] + engcheck.load_ops(inst, inp) + [f"eng {rn} {inst}", f"eng dump {inst}", f"eng {rn} {inst}", f"eng dump {inst}"]
             cases.append(engcheck.Case(pid, inst, ops, {"inp": inp, "marks": ["same"], "kind": "agg-rerun", "was": "F2"}))
     # witness of F2 (fixed by 8b2e261; must pass)
     w = {"rels": [{"arity": 2}, {"arity": 1}, {"arity": 2}],
